@@ -204,7 +204,9 @@ func (root *Root) resolve(
 						unbound = err
 					}
 				} else if baseType(objType) == meta {
-					result, ea = root.resolveFieldSels(obj, vars, field, m, depth-1)
+					// The selections are those on the union, the fields of
+					// the member are selected in a fragment on it.
+					result, ea = root.resolveFieldSels(obj, vars, field, t, depth-1)
 					unbound = nil
 					break
 				}
